@@ -657,6 +657,9 @@ def apply_op(proj, op, mstep, b3):
         r["lines"] = lines
     elif k == "graph":
         rc, so, se = proj.dud(["graph"] + targets(op[1]))
+    elif k in ("relink", "corrupt", "rmobj") and not mstep.get("x"):
+        rc, se = 0, b""
+        r["lines"].append("harness: `%s` skipped, the model names no object" % k)
     else:
         rc, se = 0, b""
         if k == "write":
@@ -689,7 +692,8 @@ def apply_op(proj, op, mstep, b3):
                 with open(p, "wb") as f:
                     f.write(content_bytes(op[2]))
                 os.chmod(p, 0o444)
-                proj.harness_corrupted.add(d)
+                if b3.file(p) != d:
+                    proj.harness_corrupted.add(d)
             else:
                 r["lines"].append("harness: object %s to corrupt is absent" % d)
         elif k == "rmobj":
@@ -740,6 +744,9 @@ def apply_op(proj, op, mstep, b3):
     return r
 
 
+DUD_OPS = ("commit", "checkout", "status", "run", "push", "fetch", "graph")
+
+
 def run_case(args):
     """Execute a case on the implementation and diff against its model trace.
     Returns a Run dict: steps (with snapshots), diffs (list of str)."""
@@ -770,6 +777,8 @@ def run_case(args):
             if ms is None or ms["status"] == "dead":
                 continue
             mok = ms["status"] == "ok"
+            if not mok and op[0] not in DUD_OPS:
+                break           # a harness-side edit the model cannot apply (e.g. no object to corrupt): the case ends here
             if mok != (r["rc"] == 0):
                 out["diffs"].append("step %d %s: model %s, implementation exit %d (%s) %s" % (
                     i, op_text(op), ms["status"], r["rc"], r["err"], step["stderr"][-200:]))
